@@ -73,7 +73,7 @@ Ltac unf := unfold hook_events, hook_step, requires_lookup, dispatch, capture_cp
 Ltac simp1 := unf; unfold opt_eqb, is_some, nz, or_else, zero_or, is_null in *; cbn in *.
 Ltac step := simp1; hyps; repeat (progress (simp1; eqs)); try reflexivity; try discriminate.
 Ltac crush := step; repeat (split_var; step).
-Ltac facts f := destruct f as [head ha pa proot ok rbn cphn ip ipa jact jstart jsrcs onto ups coh br utd picks origs news noise srcs mades target bw dirty stop sb sa snew sqsrc merged wl unc pp det asva utp].
+Ltac facts f := destruct f as [head ha pa proot ok rbn cphn ip ipa jact jstart jsrcs onto ups coh br utd picks origs news noise srcs mades target bw dirty stop sb sa snew sqsrc merged wl unc pp det asva mab utp].
 
 Definition stmt c f := wf_firing c f = true -> Known_C13 c f = false ->
   effects f (fst (hook_events (git_fires c f) (pre_state c))) = effects f (wrap_events c f).
